@@ -261,17 +261,20 @@ def run(ctx_):
     import l2data
     ndata = 2 if tier == "quick" else 30
     drng = vlib.mkrng(seed, prop + "-data")
-    dmethods = [(l2data.gen_methods(drng, 9), i % 2 == 1) for i in range(ndata)]
+    dmethods = []
+    for i in range(ndata):
+        ms_ = l2data.gen_methods(drng, 9)
+        dmethods.append((ms_, i % 2 == 1, l2data.mark_optional(drng, ms_)))
 
     def dd(i):
-        ms, ch = dmethods[i]
-        return i, l2data.build_and_run(ctx_["idlc"], os.path.join(work, "data%d" % i), ms, chain=ch)
+        ms, ch, op = dmethods[i]
+        return i, l2data.build_and_run(ctx_["idlc"], os.path.join(work, "data%d" % i), ms, chain=ch, opt=op)
     with ThreadPoolExecutor(max_workers=4) as ex:
         dres = dict(ex.map(dd, range(ndata)))
     data_lines = 0
     for i, r in sorted(dres.items()):
-        ms, ch = dmethods[i]
-        idl = l2data.render_idl(ms, ch)
+        ms, ch, op = dmethods[i]
+        idl = l2data.render_idl(ms, ch, op)
         if r.get("stage") != "run" or r.get("rc") != 0:
             res["failures"].append({"property": prop, "idl": idl, "what": "the nine-pairing data program does not build or aborts (%s): %s" % (r.get("stage"), (r.get("err") or "")[-700:])})
             continue
